@@ -143,7 +143,18 @@ def _t(el):
 
 def read_manifest(path):
     """independent reading of a manifest into plain dicts; raises on malformed XML"""
-    root = ET.parse(path).getroot()
+    return read_manifest_root(ET.parse(path).getroot(), path)
+
+
+def read_manifest_bytes(data, path=None):
+    return read_manifest_root(ET.fromstring(data), path)
+
+
+def read_chain_bytes(data):
+    return _chain_from_root(ET.fromstring(data))
+
+
+def read_manifest_root(root, path=None):
     if root.tag != NS + "hashlist":
         raise ValueError(f"root element {root.tag}")
     out = {"path": path, "version": root.attrib.get("version")}
@@ -230,7 +241,10 @@ def _dir_entries(el):
 
 
 def read_chain(path):
-    root = ET.parse(path).getroot()
+    return _chain_from_root(ET.parse(path).getroot())
+
+
+def _chain_from_root(root):
     if root.tag != NSD + "ascmhldirectory":
         raise ValueError(f"root element {root.tag}")
     out = []
@@ -408,3 +422,25 @@ def walk_nonignored(root, is_ignored):
             else:
                 files.append(p)
     return sorted(files), sorted(dirs)
+
+
+def histories_from_files(asc_files):
+    """{rel path: bytes} of files inside ascmhl folders -> {history_root_rel: {"gens": [(num, name, manifest)], "chain": [...]}}"""
+    out = {}
+    for rel in sorted(asc_files):
+        folder = os.path.dirname(rel)
+        hroot = os.path.dirname(folder)
+        h = out.setdefault(hroot, {"gens": [], "chain": None, "error": None})
+        name = os.path.basename(rel)
+        try:
+            if name == "ascmhl_chain.xml":
+                h["chain"] = read_chain_bytes(asc_files[rel])
+            elif name.endswith(".mhl") and not name.startswith("._"):
+                m = LOADER_NAME_RE.match(name[:-4])
+                if m:
+                    h["gens"].append((int(m.group(1)), name, read_manifest_bytes(asc_files[rel], rel)))
+        except (ET.ParseError, ValueError) as e:
+            h["error"] = f"{rel}: {e}"
+    for h in out.values():
+        h["gens"].sort(key=lambda g: (g[0], g[1]))
+    return out
